@@ -16,6 +16,9 @@ pub struct Case {
     pub seq: Vec<u8>,
     pub interval: usize,
     pub levels: u8,
+    /// index of the insert whose value is 1.3 MB instead (a block far above any threshold)
+    #[serde(default)]
+    pub huge_at: Option<usize>,
 }
 
 pub const KEYS: usize = 6;
@@ -46,7 +49,7 @@ pub fn run_case(c: &Case) -> Result<Outcome, String> {
     wb.block_size(1024).index_key_interval(NonZeroUsize::new(c.interval).unwrap()).index_levels(c.levels);
     let mut w = wb.memory();
     for (i, s) in c.seq.iter().enumerate() {
-        let val = if s % 2 == 1 { vec![0xEE; 1100] } else { vec![i as u8] };
+        let val = if c.huge_at == Some(i) { vec![0xEE; 1_300_000] } else if s % 2 == 1 { vec![0xEE; 1100] } else { vec![i as u8] };
         let r = catch_unwind(AssertUnwindSafe(|| w.insert(&keys[i], &val)));
         match r {
             Ok(Ok(())) => {}
@@ -90,7 +93,7 @@ pub fn run_case(c: &Case) -> Result<Outcome, String> {
         let short = catch_unwind(AssertUnwindSafe(|| -> Result<Vec<u8>, String> {
             let mut w = wb.build(vlib::sio::SFile::new(&ctl));
             for (i, s) in c.seq.iter().enumerate() {
-                let val = if s % 2 == 1 { vec![0xEE; 1100] } else { vec![i as u8] };
+                let val = if c.huge_at == Some(i) { vec![0xEE; 1_300_000] } else if s % 2 == 1 { vec![0xEE; 1100] } else { vec![i as u8] };
                 w.insert(&keys[i], &val).map_err(|e| e.to_string())?;
             }
             w.into_inner().map(|s| s.data.clone()).map_err(|e| e.to_string())
@@ -187,7 +190,7 @@ pub fn run(tier: Tier) -> i32 {
         let (si, ci) = (i / cfgs.len(), i % cfgs.len());
         let len = offsets.iter().rposition(|o| *o <= si).unwrap();
         let seq = decode_seq(si - offsets[len], len);
-        let case = Case { seq, interval: cfgs[ci].0, levels: cfgs[ci].1 };
+        let case = Case { seq, interval: cfgs[ci].0, levels: cfgs[ci].1, huge_at: None };
         acc.evaluations += 1;
         acc.states += 1;
         acc.transitions += case.seq.len() as u64 + 1;
@@ -224,8 +227,40 @@ pub fn run(tier: Tier) -> i32 {
             }
         }
     });
+    // the same sequences up to length 3 with one value of 1.3 MB at each position (whatever the
+    // writer does differently for very large blocks happens before the next insert's order check)
+    let huge_len = 3usize;
+    let n_huge = offsets[huge_len + 1];
+    let huge = par_for(n_huge * huge_len, 64, &deadline, |i, acc| {
+        let (si, at) = (i / huge_len, i % huge_len);
+        let len = offsets.iter().rposition(|o| *o <= si).unwrap();
+        if at >= len {
+            return;
+        }
+        let seq = decode_seq(si - offsets[len], len);
+        for (interval, levels) in [(1usize, 0u8), (2, 2)] {
+            let case = Case { seq: seq.clone(), interval, levels, huge_at: Some(at) };
+            acc.evaluations += 1;
+            acc.states += 1;
+            acc.transitions += len as u64 + 1;
+            match run_case(&case) {
+                Ok(Outcome::Accepted(_)) => acc.hist("with_a_huge_value_accepted_all_blocks_ascending"),
+                Ok(_) => acc.hist("with_a_huge_value_panicked"),
+                Err(msg) => {
+                    acc.hist("violation");
+                    acc.violation(Violation {
+                        signature: serde_json::to_string(&case).unwrap(),
+                        summary: format!("C18: inserts {:?} (key id*2+pad; insert #{at} carries 1.3 MB) interval {interval} index_levels {levels}: {msg}", case.seq),
+                        case: json!({"kind": "inserts", "case": case}),
+                    });
+                }
+            }
+        }
+    });
+    let mut acc = acc;
+    acc.merge(huge);
     rep.acc = acc;
-    rep.set("rule", json!("E2: all insert sequences of length <= n over 6 keys ('', 10, 20, 30, 600x10, 600x20) x {1-byte value, 1100-byte value (forces a block cut)} — sorted, duplicate and descending alike — x interval {1,2} x index_levels {0,1,2,3}, block_size 1024; each insert and the finish under catch_unwind; oracle: either a panic, or the independent block walk finds every block (data and index) strictly ascending; strictly ascending sequences must not panic; distinct_nontrivial = sequences that are not strictly ascending"));
+    rep.set("rule", json!("E2: all insert sequences of length <= n over 6 keys ('', 10, 20, 30, 600x10, 600x20) x {1-byte value, 1100-byte value (forces a block cut)} — sorted, duplicate and descending alike — x interval {1,2} x index_levels {0,1,2,3}, block_size 1024; each insert and the finish under catch_unwind; oracle: either a panic, or the independent block walk finds every block (data and index) strictly ascending; strictly ascending sequences must not panic; every accepted file is also streamed through a Merger into a second writer (one block, and 1024-byte blocks), which must panic or emit ascending blocks only; the sequences up to length 3 are run again with a 1.3 MB value at each position; distinct_nontrivial = sequences that are not strictly ascending"));
     rep.set("bound", json!({"max_len": max_len, "symbols": base, "sequences": n_seq, "configurations": cfgs.len()}));
     rep.finish()
 }
